@@ -135,7 +135,7 @@ PROPS["C09"] = dict(
 
 PROPS["C08"] = dict(
     modules=["common", "hdrs", "c03", "c02", "c05", "c09", "c08"],
-    contracts=["BaseRouter.search", "asgi.Router.__call__", "wsgi.Router.__call__", "convertor.languages"],
+    contracts=["BaseRouter.search", "asgi.Router.__call__", "wsgi.Router.__call__", "convertor.languages", "conv.StringConvertor.to_python", "conv.StringConvertor.to_string", "conv.IntegerConvertor.to_string", "conv.IntegerConvertor.to_python", "conv.AnyConvertor.to_python", "conv.AnyConvertor.to_string"],
     no_refute=["convertor.languages"],
     refute={"quick": [2], "thorough": [1, 2, 3]},
     native="c08",
@@ -147,7 +147,10 @@ PROPS["C08"] = dict(
                "declaration order, whose matches() accepts the path together with exactly its parameters, None iff none (loop "
                "invariant, any table length); (3) both Router.__call__ store exactly those parameters, call exactly that "
                "endpoint once and emit nothing themselves, else emit the bundled 404 and leave the request's parameters "
-               "untouched. BOUNDED (labelled): value conversion, to_string/to_python round trips, and that literal route text "
+               "untouched; (4) for the convertors whose conversion is plain Python - str, int, any - the real to_string / "
+               "to_python: to_string returns a word of the placeholder's language or raises ValueError exactly for values that "
+               "have none ('' or with '/', negative), to_python accepts every word of the language, and int(str(n)) == n "
+               "(A-int-1). BOUNDED (labelled): Decimal / UUID / date conversion and round trips, and that literal route text "
                "is matched verbatim (pattern construction in Route.__init__/compile_path) are run-time checks of the real "
                "code against a reference dispatcher over enumerated words/tables - Decimal/UUID/date are stdlib objects.",
     level_note="Trusted: re fullmatch == language membership (A-re-2) and the regex->SMT translation of pyvc.regex (subset: classes, "
